@@ -12,6 +12,10 @@ theorem accepted_steps (cr : Crypto) (c : Creds) (im : InMsg) (s : Spec.ScopedPd
     checkUser c im.m = .ok () ∧ verifyAuth cr c im = .ok () ∧ extractScoped cr c im.m = .ok s ∧
     hasUsmError s.pdu.varbinds = false ∧ checkLevel c im.m = .ok () := by
   unfold processIncoming at h
+  cases h0 : shapeCheck im.m with
+  | error e => simp [h0] at h
+  | ok u0 =>
+  simp only [h0] at h
   cases h1 : checkUser c im.m with
   | error e => simp [h1] at h
   | ok u1 =>
